@@ -128,7 +128,8 @@ EXTRA["C01"] = {
             "Counterexamples are written to a file and run through `garden check` (exit 101 confirms).",
     "note": "Trusted: rsx, the NFA simulation (validated each run against the real lexer through `garden verif lex`), z3. "
             "Of the parser only unescape_string is inside the claim; the recursive descent over token vectors and Rc trees, "
-            "the checker and the formatter are outside it.",
+            "the checker and the formatter are outside it - in particular parse_float / parse_int on number tokens (a seeded "
+            "change there, C01-3, is not detected: DESIGN.md section 23).",
     "design_ref": "DESIGN.md section 6, C01",
 }
 
@@ -143,7 +144,9 @@ EXTRA["C23"] = {
             "parsing / loading / checking stubbed to hand it parse errors and diagnostics with fully symbolic positions and "
             "serde_json::to_string recording what is serialised; decided: every reported line/column field is the "
             "position's own (+1 for the 1-indexed lines). Replay through `garden verif lex` against an independent "
-            "byte-level oracle, and multi-line diagnostics through `garden check --json`.",
+            "byte-level oracle, multi-line diagnostics through `garden check --json`, and Position::merge counterexamples "
+            "through 20 incomplete programs (merges whose second position ends before the first) whose reported ranges must be "
+            "ordered and inside their lines.",
     "note": "Trusted: rsx, NFA simulation, z3. Positions built elsewhere (Position::todo, diagnostics widened to a line, "
             "LSP ranges - C29 -, the JSON session's own rendering) are outside the claim.",
     "design_ref": "DESIGN.md section 6, C23",
@@ -198,10 +201,13 @@ EXTRA["C12"] = {
             "template kernel): the real Value::display is executed on String / List / Tuple / Dict values (0..2 elements quick, "
             "0..3) with escape_string_literal and nested display calls stubbed to markers and format! modelled positionally "
             "({:?} yields a DEBUG marker); decided: the printed text is exactly the literal template over escaped strings, "
-            "dict entries in key order.",
-    "note": "Trusted: rsx, NFA simulation, z3. Float/integer printing (std formatting) and the list/tuple/dict/struct "
-            "templates for enum variants, structs and functions are outside the kernels; the list / tuple / dict templates "
-            "are part B.",
+            "dict entries in key order. Part C (numbers): the real Float / Int arms of Value::display on a symbolic finite f64 / "
+            "i64 with std's `{}` formatting as a marker naming the formatted term; decided: the printed text is that marker of "
+            "the value itself (floats: optionally followed by `.0`); replay: 16 floats and 6 ints, bare and nested, printed and "
+            "re-read.",
+    "note": "Trusted: rsx, NFA simulation, z3, std's shortest round-trip formatting of f64 / i64 (whether `.0` must be appended "
+            "is covered by the native round trip only). The templates for enum variants, structs and functions are outside "
+            "the kernels; the list / tuple / dict templates are part B, numbers part C.",
     "design_ref": "DESIGN.md section 6, C12",
 }
 
